@@ -55,25 +55,48 @@ project.setup(Op())
 '''
 
 
+# abstract release v (1..NR, the order the model talks about) -> concrete PEP 440 version: every chain is strictly increasing in
+# the order release keys are documented to have; histories are spread over the chains (integers, dev/pre/post releases of
+# one final version, numeric versus lexicographic components)
+CHAINS = (('1', '2', '3'), ('0.3.dev1', '0.3', '0.3.post1'), ('1.0a1', '1.0rc1', '1.0'), ('2.0.dev1', '2.0.dev2', '2.0'),
+          ('1.2', '1.10', '2.0.dev3'))
+CHAIN = [0]
+
+
+def ver(v):
+    return CHAINS[CHAIN[0]][v - 1]
+
+
+def abstract_release(key):
+    """Listed release key -> abstract release number (0 = a release nobody published)."""
+    text = str(key)
+    return CHAINS[CHAIN[0]].index(text) + 1 if text in CHAINS[CHAIN[0]] else 0
+
+
 class Packages:
-    """One directory package and one file (.4ml) package per release version, built once."""
+    """One directory package and one file (.4ml) package per release version and chain, built once."""
 
     def __init__(self, base, nr):
         from forml import project
         self.items = {}
-        for v in range(1, nr + 1):
-            src = pathlib.Path(base) / f'src{v}'
+        for c, chain in enumerate(CHAINS):
+            for n in range(1, nr + 1):
+                self._build(base, project, c, n, chain[n - 1])
+
+    def _build(self, base, project, c, n, v):
+        if True:
+            src = pathlib.Path(base) / f'src{c}-{n}'
             (src / 'app').mkdir(parents=True)
             (src / 'app' / '__init__.py').write_text('')
             (src / 'app' / 'source.py').write_text(SOURCE_PY)
             (src / 'app' / 'pipeline.py').write_text(PIPELINE_PY)
             (src / '__4ml__.py').write_text(MANIFEST.format(name=PROJECT, version=v))
             directory = project.Package(src)
-            archive = project.Package.create(src, project.Manifest(PROJECT, str(v), 'app'), pathlib.Path(base) / f'pkg{v}.4ml')
-            self.items[v] = (directory, archive)
+            archive = project.Package.create(src, project.Manifest(PROJECT, str(v), 'app'), pathlib.Path(base) / f'pkg{c}-{n}.4ml')
+            self.items[(c, n)] = (directory, archive)
 
     def get(self, v, form):
-        return self.items[v][form % 2]
+        return self.items[(CHAIN[0], v)][form % 2]
 
 
 # ------------------------------------------------------------------------------------------------ real operations
@@ -111,18 +134,21 @@ def view(root, nr, ids):
         # a project is listed iff it has a valid release; still look below for half-written content
     project = directory.get(PROJECT)
     try:
-        listed = sorted(int(str(r)) for r in project.list())
+        listed = sorted(abstract_release(r) for r in project.list())
     except Exception:  # pylint: disable=broad-except
         listed = []
     for r in listed:
         rels.append(r)
+        if r == 0:          # a release that was never published is listed: no package, no generations to look at
+            pkgok.append(False)
+            continue
         try:
-            package = directory.registry.pull(PROJECT, project.get(str(r)).key)
-            ok = str(package.manifest.version) == str(r) and package.manifest.name == PROJECT
+            package = directory.registry.pull(PROJECT, project.get(ver(r)).key)
+            ok = str(package.manifest.version) == ver(r) and package.manifest.name == PROJECT
         except Exception:  # pylint: disable=broad-except
             ok = False
         pkgok.append(ok)
-        release = project.get(str(r))
+        release = project.get(ver(r))
         try:
             numbers = [int(g) for g in release.list()]
         except Exception:  # pylint: disable=broad-except
@@ -132,7 +158,7 @@ def view(root, nr, ids):
             try:
                 generation = release.get(n)
                 tag = generation.tag
-                entry['tag'] = ids((pathlib.Path(root) / PROJECT / str(r) / str(n) / 'tag.toml').read_bytes())
+                entry['tag'] = ids((pathlib.Path(root) / PROJECT / ver(r) / str(n) / 'tag.toml').read_bytes())
                 states = []
                 for i in range(len(tag.states)):
                     data = generation.get(i)
@@ -165,14 +191,14 @@ def do_op(root, ev, packages, counter, ids, form, held=None):
     from forml.io import asset
     if held is None:
         directory = fresh(root)
-        get_release = lambda v: directory.get(PROJECT).get(str(v))
+        get_release = lambda v: directory.get(PROJECT).get(ver(v))
     else:
         box = handle(root, held)
         directory = box['dir']
 
         def get_release(v):
             if v not in box['levels']:
-                box['levels'][v] = directory.get(PROJECT).get(str(v))
+                box['levels'][v] = directory.get(PROJECT).get(ver(v))
             release = box['levels'][v]
             try:
                 list(release.list())      # a client looking at what is there before it acts
@@ -209,9 +235,10 @@ def do_op(root, ev, packages, counter, ids, form, held=None):
     return 'ok', written
 
 
-def replay_history(hist, nr, packages, base, crash_event=None, crash_write=None, form=0, handles=0):
+def replay_history(hist, nr, packages, base, crash_event=None, crash_write=None, form=0, handles=0, chain=0):
     """Replay one history; the operation marked `crash` dies at the given event / write. Returns (trace, #events, #writes)."""
     root = tempfile.mkdtemp(prefix='reg-', dir=base)
+    CHAIN[0] = chain
     ids, counter, trace = Ids(), [0, 0], []
     nev = nwr = 0
     try:
@@ -282,21 +309,22 @@ def run(chk, rnd, tmp, base):
     traces, meta = [], []
     for h, hist in enumerate(histories):
         form = h % 2
-        dry, nev, nwr = replay_history(hist, nr, packages, base, None, None, form)
+        chain = (h // 2) % len(CHAINS)
+        dry, nev, nwr = replay_history(hist, nr, packages, base, None, None, form, chain=chain)
         traces.append(dry)
-        meta.append({'hist': hist, 'crash': None, 'form': form})
+        meta.append({'hist': hist, 'crash': None, 'form': form, 'chain': chain})
         for handles in (1, 2):        # the same history through one / two long-lived client handles
-            tr, _, _ = replay_history(hist, nr, packages, base, None, None, form, handles=handles)
+            tr, _, _ = replay_history(hist, nr, packages, base, None, None, form, handles=handles, chain=chain)
             traces.append(tr)
-            meta.append({'hist': hist, 'crash': None, 'form': form, 'handles': handles})
+            meta.append({'hist': hist, 'crash': None, 'form': form, 'handles': handles, 'chain': chain})
         for k in range(1, nev + 1):
-            tr, _, _ = replay_history(hist, nr, packages, base, k, None, form)
+            tr, _, _ = replay_history(hist, nr, packages, base, k, None, form, chain=chain)
             traces.append(tr)
-            meta.append({'hist': hist, 'crash': ['event', k], 'form': form})
+            meta.append({'hist': hist, 'crash': ['event', k], 'form': form, 'chain': chain})
         for k in range(1, nwr + 1):
-            tr, _, _ = replay_history(hist, nr, packages, base, None, k, form)
+            tr, _, _ = replay_history(hist, nr, packages, base, None, k, form, chain=chain)
             traces.append(tr)
-            meta.append({'hist': hist, 'crash': ['write', k], 'form': form})
+            meta.append({'hist': hist, 'crash': ['write', k], 'form': form, 'chain': chain})
     # binding self-test: a generation whose tag lists a state that is gone must be rejected by the trace spec
     bad = json.loads(json.dumps(next(t for t in traces if any(e['op'] == 'train' and e['res'] == 'ok' and e['n'] > 0 for e in t))))
     for e in bad:
@@ -316,9 +344,9 @@ def run(chk, rnd, tmp, base):
         _, matched, total = verdicts[i]
         if matched < total:
             ev = traces[i - 1][matched]
-            chk.fail(f'C05 history {[(e["op"], e["v"], e["n"], e["crash"]) for e in m["hist"]]} crash={m["crash"]} package form={m["form"]}: '
+            chk.fail(f'C05 history {[(e["op"], e["v"], e["n"], e["crash"]) for e in m["hist"]]} crash={m["crash"]} package form={m["form"]} versions={list(CHAINS[m["chain"]])}: '
                      f'after step {matched + 1} ({ev["op"]} -> {ev["res"]}) a fresh reader sees {json.dumps(ev["view"])[:400]} - neither '
-                     'the previous content nor the complete new item', {'hist': m['hist'], 'crash': m['crash'], 'form': m['form'], 'handles': m.get('handles', 0)})
+                     'the previous content nor the complete new item', {'hist': m['hist'], 'crash': m['crash'], 'form': m['form'], 'handles': m.get('handles', 0), 'chain': m['chain']})
         else:
             ok += 1
             crashes += 1 if m['crash'] else 0
@@ -340,7 +368,7 @@ def replay_cmd(chk, path):
     packages = Packages(base, nr)
     ce = rep['crash'][1] if rep['crash'] and rep['crash'][0] == 'event' else None
     cw = rep['crash'][1] if rep['crash'] and rep['crash'][0] == 'write' else None
-    tr, nev, nwr = replay_history(rep['hist'], nr, packages, base, ce, cw, rep['form'], handles=rep.get('handles', 0))
+    tr, nev, nwr = replay_history(rep['hist'], nr, packages, base, ce, cw, rep['form'], handles=rep.get('handles', 0), chain=rep.get('chain', 0))
     for e in tr:
         print(e['op'], e['v'], e['n'], e['res'], json.dumps(e['view']))
     shutil.rmtree(base, ignore_errors=True)
